@@ -41,44 +41,56 @@ def optionsDict (options : Option Str) : Opts :=
     if o.isEmpty then .dict []
     else .dict ((splitChar ' ' o []).foldl (fun d p => assocSet d (keyValue p).1 (keyValue p).2) [])
 
+/-- the `(attribute ...)` branch of `_parse_annotation`: the options are parsed as a list and
+    glued back into one `key=value` (or bare `key`) option of `(attributes ...)` -/
+def attributeStep (col : Nat) (opts0 : Option Str) :
+    Except PyErr (Option (Str × Option Str) × List TDiag) :=
+  let d0 : List TDiag := [⟨.warning, .attributeDeprecated, col⟩]
+  let lo := optionsList col opts0
+  match pyLen lo.1 with
+  | .error e => .error e
+  | .ok n =>
+    if n = 1 then
+      match pyItem lo.1 0 with
+      | .error e => .error e
+      | .ok a => .ok (some (str Gen.annAttributes, some a), d0 ++ lo.2)
+    else if n = 2 then
+      match pyItem lo.1 0, pyItem lo.1 1 with
+      | .ok a, .ok b => .ok (some (str Gen.annAttributes, some (a ++ '=' :: b)), d0 ++ lo.2)
+      | .error e, _ => .error e
+      | _, .error e => .error e
+    else
+      .ok (none, d0 ++ lo.2 ++ [⟨.error, .malformedAttribute, col⟩])
+
+/-- first half of `_parse_annotation`: the deprecated spellings -/
+def deprecatedStep (col : Nat) (name0 : Str) (opts0 : Option Str) :
+    Except PyErr (Option (Str × Option Str) × List TDiag) :=
+  if name0 = str Gen.annInoutAlt then
+    .ok (some (str Gen.annInout, opts0), [⟨.warning, .inoutDeprecated, col⟩])
+  else if name0 = str Gen.annAttribute then attributeStep col opts0
+  else .ok (some (name0, opts0), [])
+
+/-- second half of `_parse_annotation`: `column += len(ann_name) + 2` and the options parser
+    chosen by the annotation's class -/
+def classStep (col : Nat) (name : Str) (opts : Option Str) : (Str × Opts) × List TDiag :=
+  let col' := col + name.length + 2
+  if isListAnn name then
+    let lo := optionsList col' opts
+    ((name, lo.1), lo.2)
+  else if isDictAnn name then ((name, optionsDict opts), [])
+  else ((name, optionsUnknown opts), [])
+
 /-- `_parse_annotation`: `(name or None, options)`, with the diagnostics it logs.
     `col` is the column of the annotation's opening parenthesis. -/
 def parseAnnotation (col : Nat) (annotation : Str) :
-    Except PyErr (Option (Str × Opts) × List TDiag) := do
-  let ann := replaceAngles annotation
-  let parts := split1 ' ' ann
-  let name0 := pyLower parts.1
-  let opts0 := parts.2
-  -- deprecated spellings
-  let step1 : Except PyErr (Option (Str × Option Str) × List TDiag) :=
-    if name0 = str Gen.annInoutAlt then
-      .ok (some (str Gen.annInout, opts0), [⟨.warning, .inoutDeprecated, col⟩])
-    else if name0 = str Gen.annAttribute then do
-      let d0 : List TDiag := [⟨.warning, .attributeDeprecated, col⟩]
-      let lo := optionsList col opts0
-      let n ← pyLen lo.1
-      if n = 1 then do
-        let a ← pyItem lo.1 0
-        pure (some (str Gen.annAttributes, some a), d0 ++ lo.2)
-      else if n = 2 then do
-        let a ← pyItem lo.1 0
-        let b ← pyItem lo.1 1
-        pure (some (str Gen.annAttributes, some (a ++ '=' :: b)), d0 ++ lo.2)
-      else
-        pure (none, d0 ++ lo.2 ++ [⟨.error, .malformedAttribute, col⟩])
-    else .ok (some (name0, opts0), [])
-  let r ← step1
-  match r.1 with
-  | none => pure (none, r.2)
-  | some (name, opts) =>
-    let col' := col + name.length + 2
-    if isListAnn name then
-      let lo := optionsList col' opts
-      pure (some (name, lo.1), r.2 ++ lo.2)
-    else if isDictAnn name then
-      pure (some (name, optionsDict opts), r.2)
-    else
-      pure (some (name, optionsUnknown opts), r.2)
+    Except PyErr (Option (Str × Opts) × List TDiag) :=
+  let parts := split1 ' ' (replaceAngles annotation)
+  match deprecatedStep col (pyLower parts.1) parts.2 with
+  | .error e => .error e
+  | .ok (none, d) => .ok (none, d)
+  | .ok (some (name, opts), d) =>
+    let r := classStep col name opts
+    .ok (some r.1, d ++ r.2)
 
 /-- loop state of `_parse_annotations` -/
 structure St where
@@ -98,7 +110,7 @@ inductive Outcome where
   | brk (s : St)
   | fail (d : List TDiag)
   | raise (e : PyErr)
-  deriving Repr
+  deriving Repr, DecidableEq
 
 /-- the `parens_level == 0` branch of a closing parenthesis -/
 def closeAnn (parseOptions : Bool) (col : Nat) (s : St) (i : Nat) (c : Char) : Outcome :=
@@ -146,7 +158,7 @@ inductive LoopRes where
   | done (s : St)
   | fail (d : List TDiag)
   | raise (e : PyErr)
-  deriving Repr
+  deriving Repr, DecidableEq
 
 def loop (parseOptions : Bool) (col : Nat) : Str → Nat → St → LoopRes
   | [], _, s => .done s
@@ -162,7 +174,7 @@ inductive AnnResult where
   | ok (anns : Anns) (raw : List Str) (changed : Bool) (startPos endPos : Nat) (diags : List TDiag)
   | fail (diags : List TDiag)
   | raise (e : PyErr)
-  deriving Repr
+  deriving Repr, DecidableEq
 
 def initSt (init : Option Anns) : St :=
   { parens := 0, prev := none, buf := [], startPos := 0, endPos := 0,
@@ -186,7 +198,7 @@ structure FieldsResult where
   changed : Bool
   description : Str
   diags : List TDiag
-  deriving Repr
+  deriving Repr, DecidableEq
 
 /-- `_parse_fields` -/
 def parseFields (parseOptions validateDescription : Bool) (col : Nat) (fields : Str)
@@ -204,7 +216,23 @@ def parseFields (parseOptions validateDescription : Bool) (col : Nat) (fields : 
         .ok { success := true, anns := a, raw := raw, changed := ch, description := desc, diags := d ++ d2 }
     else .ok { success := true, anns := a, raw := raw, changed := ch, description := desc, diags := d }
 
+/-! ### how `parse_comment_block` applies a `_parse_fields` result to a part -/
+
+/-- first line of a parameter/tag: `if result.success: part.annotations = result.annotations`
+    (the part is new: its annotations are empty) -/
+def applyFirst (r : FieldsResult) : Anns := if r.success then r.anns else []
+
+/-- continuation line: `if r.success and r.annotations_changed: part.annotations = r.annotations` -/
+def applyContinuation (cur : Anns) (r : FieldsResult) : Anns :=
+  if r.success && r.changed then r.anns else cur
+
 /-! ### the writer -/
+
+/-- one iteration of the writer's loop over a dict's items -/
+def dictStep (acc : Str) (kv : Str × Option Str) : Str :=
+  match kv.2 with
+  | some v => if v.isEmpty then acc ++ kv.1 ++ [' '] else acc ++ kv.1 ++ '=' :: v ++ [' ']
+  | none => acc ++ kv.1 ++ [' ']
 
 /-- options part of one serialized annotation (`None` = bare `(name)`) -/
 def serializeOptions : Opts → Option Str
@@ -212,11 +240,7 @@ def serializeOptions : Opts → Option Str
   | .list [] => none
   | .list l => some (join [' '] l)
   | .dict [] => none
-  | .dict d =>
-    some (strip (d.foldl (fun acc kv =>
-      match kv.2 with
-      | some v => if v.isEmpty then acc ++ kv.1 ++ [' '] else acc ++ kv.1 ++ '=' :: v ++ [' ']
-      | none => acc ++ kv.1 ++ [' ']) []))
+  | .dict d => some (strip (d.foldl dictStep []))
 
 def serializeAnnotation (a : Str × Opts) : Str :=
   match serializeOptions a.2 with
